@@ -39,6 +39,8 @@ def run(prog, chk):
     C03.qualified_names(prog, chk)  # start and end tag carry the same (qualified) name
     C03.attrmap_keys_verbatim(prog, chk)  # an attribute stored under another name can collide with an existing one (duplicate attribute)
     no_double_hyphen_literals(prog, chk)
+    from props import strops
+    strops.check_evaluation_sites(prog, chk)  # what is written raw (comments) is not the product of an evaluation
     attribute_lists_validated(prog, chk)
     from props import C01
     C01.utf8_boundary(prog, chk)  # output is UTF-8 because every input event was validated (pass-through carries bytes along)
